@@ -1,9 +1,5 @@
 package simrt
 
-import (
-	"math/rand"
-)
-
 // Stream identifies one decision stream. Every source of randomness in a run
 // draws from exactly one stream, so that shrinking one stream (say, the
 // schedule) does not shift the draws of another (say, the scenario).
@@ -25,13 +21,22 @@ var StreamNames = [...]string{"scn", "sch", "sel", "net", "lib", "app"}
 // from (run seed, stream); in a replay they come from the recorded vector.
 // Each decision is recorded as (arity, chosen).
 type Tape struct {
-	rng    *rand.Rand
+	rng    *tapeRng
 	replay []uint32 // flattened (n, chosen) pairs, nil in a fresh run
 	pos    int      // index into replay, in pairs
 	Rec    []uint32 // flattened (n, chosen) pairs of this run
 	// Diverged counts decisions whose arity differed from the replay vector
 	// or that ran past its end. A strict replay requires zero.
 	Diverged int
+}
+
+// tapeRng is a small self-contained generator (no standard-library state: in race builds
+// instrumented library code called from this uninstrumented package only produces noise).
+type tapeRng struct{ s uint64 }
+
+func (r *tapeRng) Intn(n int) int {
+	r.s += 0x9e3779b97f4a7c15
+	return int(splitmix(r.s) % uint64(n))
 }
 
 func splitmix(x uint64) uint64 {
@@ -49,7 +54,7 @@ func newTape(seed uint64, st Stream, replay []uint32, isReplay bool) *Tape {
 			t.replay = []uint32{}
 		}
 	} else {
-		t.rng = rand.New(rand.NewSource(int64(splitmix(seed ^ splitmix(uint64(st)+1)))))
+		t.rng = &tapeRng{s: splitmix(seed ^ splitmix(uint64(st)+1))}
 	}
 	return t
 }
